@@ -180,8 +180,8 @@ def rule_B2(ctx):
             return dirty, False
 
         block(G.body_wo_doc(f), False, False)
-        if problems and f.key in B2_EXEMPT:
-            r.ok(f'{f.key}[{node[1]}]', reason=True, sample={'instance': f.key, 'reason': B2_EXEMPT[f.key]})
+        if problems and ctx.rk(f.key) in B2_EXEMPT:
+            r.ok(f'{f.key}[{node[1]}]', reason=True, sample={'instance': f.key, 'reason': B2_EXEMPT[ctx.rk(f.key)]})
         elif problems:
             for (nd, why) in problems[:2]:
                 r.fail(f.key, nd, f"{why}: an invalid argument must raise and leave the content as it was", loc=f.loc(nd),
@@ -405,9 +405,10 @@ def rule_N1(ctx):
     used = set()
     for f, a in sites:
         txt = norm(a.test)
-        if (f.key, txt) in N1_REASONS:
-            used.add((f.key, txt))
-            r.ok(f'{f.key}: {txt}', reason=True, sample={'instance': f.key, 'assert': txt, 'reason': N1_REASONS[(f.key, txt)]})
+        fk = ctx.rk(f.key)
+        if (fk, txt) in N1_REASONS:
+            used.add((fk, txt))
+            r.ok(f'{f.key}: {txt}', reason=True, sample={'instance': f.key, 'assert': txt, 'reason': N1_REASONS[(fk, txt)]})
             continue
         params = f.params()
         needs = _assert_needs(a.test, params)
@@ -422,7 +423,7 @@ def rule_N1(ctx):
             g = m.funcs[cn[0]]
             if not isinstance(cs.node, ast.Call):
                 continue
-            if (f.key, f'{txt}@{g.key}') in N1_REASONS:
+            if (ctx.rk(f.key), f'{txt}@{ctx.rk(g.key)}') in N1_REASONS:
                 continue
             n_sites += 1
             # map parameters to argument expressions (skip self)
@@ -521,8 +522,8 @@ def rule_N2(ctx):
                 if arr_ok:
                     r.ok(f'{f.key}:{norm(node)}', reason=True)
                     continue
-            if (f.key, dt) in N2_REASONS:
-                r.ok(f'{f.key}:{norm(node)}', reason=True, sample={'instance': f.key, 'divisor': dt, 'reason': N2_REASONS[(f.key, dt)]})
+            if (ctx.rk(f.key), dt) in N2_REASONS:
+                r.ok(f'{f.key}:{norm(node)}', reason=True, sample={'instance': f.key, 'divisor': dt, 'reason': N2_REASONS[(ctx.rk(f.key), dt)]})
                 continue
             r.fail(f.key, f'{norm(node)}', f"the divisor '{dt}' can be zero on some path (no dominating guard, not a non-zero constant, no reviewed reason): "
                    'ZeroDivisionError reaches the caller', loc=f.loc(node))
